@@ -329,6 +329,8 @@ def l2_scenarios(draw):
     actions = [dict(a, v=a['v'] % 3) if a['a'] in ('create', 'edit_spec') else a for a in actions]
     if draw(st.booleans()):
         actions.insert(draw(st.integers(0, len(actions))), {'a': 'restart', 'how': 'stop', 'down': 1.0, 'dt': 0.0})
+    if draw(st.integers(0, 4)) == 0:
+        return draw(l2_selector_scenarios())
     if draw(st.integers(0, 3)) == 0:
         # Sub-handlers with their own criteria: they are judged like their parent (field changes only under update/field
         # parents; the current value under create/resume parents), whatever cause the parent happens to be invoked for -
@@ -382,6 +384,83 @@ def l2_scenarios(draw):
             'cluster': {}, 'pre': pre, 'actions': actions}
 
 
+SEL_CLUSTER = [
+    {'gvp': ['kopf.dev', 'v1', 'kopfexamples'], 'kind': 'KopfExample', 'singular': 'kopfexample', 'shortnames': ['kex'], 'categories': ['all', 'kopf'], 'namespaced': True},
+    {'gvp': ['kopf.dev', 'v1', 'kopfexamplesets'], 'kind': 'KopfExampleSet', 'singular': 'kopfexampleset', 'shortnames': ['kexs'], 'categories': ['all'], 'namespaced': True},
+    {'gvp': ['other.io', 'v1', 'widgets'], 'kind': 'Widget', 'singular': 'widget', 'shortnames': ['kex', 'wi'], 'categories': ['kopf'], 'namespaced': True},
+]
+SEL_CHOICES = [
+    {'resource': ['kopfexamples']}, {'resource': ['KopfExample']}, {'resource': ['kex']}, {'resource': ['wi']}, {'resource': ['widget']},
+    {'resource': ['kopf.dev', '@everything']}, {'resource': ['other.io/v1', 'widgets']}, {'resource': ['kopf.dev', 'v1', 'kopfexamplesets']},
+    {'resource': ['kopfexamples.kopf.dev']}, {'resource': ['widgets.v1.other.io']}, {'resource': ['kex.other.io']},
+    {'resource_kw': {'category': 'kopf'}}, {'resource_kw': {'category': 'all'}}, {'resource_kw': {'kind': 'Widget'}},
+    {'resource_kw': {'shortcut': 'kexs'}}, {'resource_kw': {'plural': 'KopfExample'}}, {'resource_kw': {'singular': 'widget', 'group': 'other.io'}},
+    {'resource_kw': {'shortcut': 'kex', 'group': 'kopf.dev'}}, {'resource_kw': {'kind': 'kopfexamples'}}, {'resource_kw': {'kind': 'widget'}},
+]
+
+
+@st.composite
+def l2_selector_scenarios(draw):
+    """The resource-selector criterion in the closed loop: three kinds with colliding names, on.event handlers in several notations."""
+    handlers = []
+    for i in range(draw(st.integers(1, 3))):
+        handlers.append(dict(draw(st.sampled_from(SEL_CHOICES)), kind='event', id=f'e{i}', script=[], duration=0))
+    dts = st.sampled_from([0.0, 0.5, 3.0])
+    kinds = st.integers(0, 2)
+    acts = st.one_of(
+        st.builds(lambda k, n, v, dt: {'a': 'xcreate', 'gvp': SEL_CLUSTER[k]['gvp'], 'ns': 'default', 'name': f'x{n}', 'v': v, 'dt': dt}, kinds, st.integers(0, 1), st.integers(0, 5), dts),
+        st.builds(lambda k, n, v, dt: {'a': 'xedit', 'gvp': SEL_CLUSTER[k]['gvp'], 'ns': 'default', 'name': f'x{n}', 'v': v, 'dt': dt}, kinds, st.integers(0, 1), st.integers(0, 5), dts),
+        st.builds(lambda dt: {'a': 'advance', 'dt': dt}, dts))
+    pre = [{'a': 'xcreate', 'gvp': SEL_CLUSTER[k]['gvp'], 'ns': 'default', 'name': 'x0', 'v': 0, 'dt': 0.0} for k in range(3) if draw(st.booleans())]
+    actions = draw(st.lists(acts, min_size=3, max_size=10))
+    return {'mode': 'L2', 'family': 'selectors', 'seed': draw(st.integers(0, 9999)), 'spec': {'handlers': handlers, 'lifecycle': 'all_at_once'},
+            'cluster': {'extra_resources': SEL_CLUSTER[1:], 'kex_names': SEL_CLUSTER[0]}, 'pre': pre, 'actions': actions}
+
+
+def run_l2_selectors(sc, res):
+    from props import c15sel
+    run = cl.Run(sc)
+    try:
+        try:
+            run.run()
+            run.quiesce(20.0)
+        except Livelock as e:
+            res.fail('C15/livelock', str(e))
+        sim = run.sim
+        rs = [{'group': r['gvp'][0], 'version': r['gvp'][1], 'plural': r['gvp'][2], 'kind': r['kind'], 'singular': r['singular'],
+               'shortcuts': r['shortnames'], 'categories': r['categories'], 'preferred': True, 'namespaced': True,
+               'verbs': ['list', 'watch', 'patch', 'create', 'delete', 'get', 'update']} for r in SEL_CLUSTER]
+        hs = [{'id': h['id'], 'kind': 'event', 'sel': {'args': h.get('resource') or [], 'kwargs': h.get('resource_kw') or {}}} for h in sc['spec']['handlers']]
+        outcomes = c15sel.ref_served(hs, rs)
+        opened = {w.rkey for w in sim.cluster.all_watches if w.session.client_id != 'env' and w.rkey in {tuple(r['gvp']) for r in SEL_CLUSTER}}
+        if frozenset(opened) not in outcomes:
+            res.fail('C15/L2-served-resources', f'handlers {[(h["id"], h["sel"]) for h in hs]}: the operator watched {sorted(opened)}, docs/resources.rst says {sorted(min(outcomes, key=lambda o: len(o ^ opened)))}')
+            return
+        served = [r for r in rs if c15sel.rkey(r) in opened]
+        want = {c15sel.rkey(r): {h['id'] for h in hs if any(c15sel.rkey(x) == c15sel.rkey(r) for x in c15sel.ref_select(c15sel.parse(h['sel']), served))} for r in served}
+        rkey_of, final = {}, {}
+        for v in sim.cluster.history:
+            rkey_of[v['uid']] = v['rkey']
+            if v['type'] != 'DELETED':
+                final[v['uid']] = v
+        calls = [c for c in sim.trace if c.get('k') == 'call' and c['kind'] == 'event']
+        for c in calls:
+            rk = rkey_of.get(c['uid'])
+            if rk is not None and c['hid'] not in want.get(rk, set()):
+                res.fail('C15/L2-handler-on-unselected-resource', f'{c["hid"]} ({next(h["sel"] for h in hs if h["id"] == c["hid"])}) was invoked for {c["name"]} of {rk}')
+                return
+        for uid, v in final.items():
+            for hid in want.get(v['rkey'], set()):
+                if not any(c['hid'] == hid and c['uid'] == uid and str(c['rv']) == str(v['rv']) for c in calls):
+                    res.fail('C15/L2-selected-handler-not-invoked', f'{hid} ({next(h["sel"] for h in hs if h["id"] == hid)}) was never invoked for the final version rv={v["rv"]} of {v["name"]} of {v["rkey"]} (served: {sorted(opened)})')
+                    return
+        res.label('L2', 'L2-selectors', f'L2-selectors-served:{len(opened)}')
+        res.nontrivial = 0 < len(opened) < 3 and len(calls) > 0
+        res.summary = {'served': sorted(map(list, opened)), 'calls': len(calls)}
+    finally:
+        run.close()
+
+
 def l2_expected(h, view_state):
     """Does handler spec h match the object state (labels/field/when) — for non-update causes and 'when'/labels in general."""
     labels = view_state['labels']
@@ -396,6 +475,8 @@ def l2_expected(h, view_state):
 
 
 def run_l2(sc, res):
+    if sc.get('family') == 'selectors':
+        return run_l2_selectors(sc, res)
     run = cl.Run(sc)
     try:
         try:
